@@ -166,6 +166,45 @@ pub fn run(env: &Env) -> Report {
                 }
             }
         }
+        // texts that SHARE A WORD PART: the memo is keyed by the word part alone, so what was computed for it inside one text (an
+        // emoticon such as `;d` or `=s`, whose word part is a letter; a quoted or bracketed form) must serve every other text with
+        // the same word part. Each emoticon with a letter/digit word part, in both orders: emoticon first then the bare word part,
+        // its suffixed forms and wrapped forms — and the other way round — each compared with a brand-new context
+        if ui % 8 == 1 {
+            let group = ui / 8; let ngroups = (nunits + 6) / 8;
+            let mut opts = Opts::none(); opts.phonetic_suggestion = true; opts.english = group % 2 == 1; opts.smart_quote = group % 3 == 0;
+            let mut k = 0usize;
+            for emo in pools.emoticons.iter() {
+                let (_, w, _) = split(emo, false);
+                if w.is_empty() || !w.chars().all(|c| c.is_ascii_alphanumeric()) { continue; }
+                k += 1; if k % ngroups != group % ngroups { continue; }
+                let follow: Vec<String> = vec![w.clone(), format!("{}er", w), format!("({}te)", w), format!("{}ke", w), format!("\"{}\"", w), emo.clone()];
+                for order in 0..2 {
+                    let case = format!("c05-{}-emo-{}-{}", ui, k, order);
+                    t.line(&format!("case {}", case));
+                    let xdg = env.fresh_xdg(&case);
+                    let mut used = match Sess::new(&mut t, &env.data, "used", PHONETIC, opts, &xdg) { Some(mut s) => { s.follow_sel = false; s } None => continue };
+                    let seq: Vec<String> = if order == 0 { std::iter::once(emo.clone()).chain(follow.iter().cloned()).collect() } else { follow.iter().cloned().chain(std::iter::once(emo.clone())).collect() };
+                    for (i, txt) in seq.iter().enumerate() {
+                        if !txt.chars().all(crate::code_ok) { continue; }
+                        let ou = if i % 2 == 0 { type_direct(&mut used, &mut t, txt) } else { type_edited(&mut used, &mut t, &mut rng, txt) };
+                        let mut fresh = match Sess::new(&mut t, &env.data, "fresh", PHONETIC, opts, &xdg) { Some(mut s) => { s.follow_sel = false; s } None => continue };
+                        let of = type_direct(&mut fresh, &mut t, txt);
+                        t.line("drop fresh");
+                        rep.eval(Some(&format!("emo|{}|{}|{}", opts.bits_str(), emo, txt)));
+                        rep.count("shared-word-part");
+                        if !same(&ou, &of) {
+                            rep.violation("C05", "warm-context-differs", format!("text {:?} in a context that has composed {:?}: {:?} vs brand-new context {:?}", txt, &seq[..i], render_obs(&ou, true), render_obs(&of, true)),
+                                json!({"stream": "c05", "layout": PHONETIC, "opts": opts.bits_str(), "target": txt, "variant": "shared word part", "store": false, "events": used.events}));
+                            break;
+                        }
+                        // half of the words end by a backspace run instead of finish: the memo survives both
+                        if i % 3 == 2 { for _ in 0..txt.chars().count() { used.backspace(&mut t, false); } } else { used.finish(&mut t); }
+                    }
+                    t.line("drop used");
+                }
+            }
+        }
         t.flush();
         rep
     });
